@@ -339,6 +339,10 @@ def key_of(p, what):
     return "C08:%s:%s" % (cat, hashlib.sha256(render(p).encode()).hexdigest()[:16])
 
 def report(run, p, ob, what, target, work, tag):
+    k0 = key_of(p, what)
+    if k0 == RELOC_KEY and run._match_known(k0) is not None:
+        run.violation(k0, "[%s] %s" % (target, what), {"program": render(p), "target": target})   # known root cause: no shrinking
+        return
     small = shrink(p, work, target, tag)
     ob2 = run_prog(small, work, tag + "_final", target)
     w2 = judge(small, ob2) or what
@@ -477,7 +481,7 @@ def main(run):
     static_stream(run, work, 4000 if thorough else 400)
     # 3. generated histories, compiled and run
     g = Gen(run.rng, ITY)
-    dynamic_stream(run, work, [g.prog() for _ in range(1500 if thorough else 60)], "native", "gn")
+    dynamic_stream(run, work, [g.prog() for _ in range(1300 if thorough else 60)], "native", "gn")
     gw = Gen(run.rng, WASM_TY)
     dynamic_stream(run, work, [gw.prog() for _ in range(500 if thorough else 10)], "wasm", "gw")
 
